@@ -151,7 +151,9 @@ def decompress_code(codedata):
                 out_i += 1
         in_i += 1
 
-    code = bytes(out).strip(b'\x00')
+    # The header's code length is authoritative: a NUL character at either
+    # end of the text is part of the text (stored as the pair 00 00).
+    code = bytes(out)
     if code.endswith(PICO8_FUTURE_CODE1):
         code = code[:-len(PICO8_FUTURE_CODE1)]
         if code[-1] == b'\n'[0]:
